@@ -6,6 +6,7 @@ import (
 	"fmt"
 	"math/rand"
 	"reflect"
+	"strings"
 	"time"
 
 	nject "github.com/muir/nject/v2"
@@ -106,6 +107,90 @@ func apiProbes() []probe {
 				return err
 			}
 			f()
+			return nil
+		}},
+		// generated providers (GenerateFromInjectionChain) and what is handed to Bind as the invoke function
+		{"generated provider returns a nil replacement", func() error {
+			var f func() string
+			err := nject.Sequence("p", func() string { return "a" },
+				nject.GenerateFromInjectionChain("gen", func(before, after nject.Collection) (nject.Provider, error) { return nil, nil }),
+				func(s string) string { return s }).Bind(&f, nil)
+			if err != nil {
+				return err
+			}
+			f()
+			return nil
+		}},
+		{"generated provider returns a nil *Collection", func() error {
+			var f func() string
+			err := nject.Sequence("p", func() string { return "a" },
+				nject.GenerateFromInjectionChain("gen", func(before, after nject.Collection) (nject.Provider, error) {
+					var c *nject.Collection
+					return c, nil
+				}),
+				func(s string) string { return s }).Bind(&f, nil)
+			if err != nil {
+				return err
+			}
+			f()
+			return nil
+		}},
+		{"a Collection of two values given as the invoke function", func() error {
+			return nject.Sequence("p", func() string { return "a" }, func(s string) {}).Bind(nject.Sequence("y", 1, 2), nil)
+		}},
+		{"a Collection of two values given as the init function", func() error {
+			var f func()
+			return nject.Sequence("p", func() string { return "a" }, func(s string) {}).Bind(&f, nject.Sequence("y", 1, 2))
+		}},
+		{"two generated providers: the earlier one replaced by nothing, the later one last (it becomes the final function)", func() error {
+			var f func() string
+			empty := nject.GenerateFromInjectionChain("empty", func(before, after nject.Collection) (nject.Provider, error) {
+				return nject.Sequence("nothing"), nil
+			})
+			last := nject.GenerateFromInjectionChain("last", func(before, after nject.Collection) (nject.Provider, error) {
+				return nject.Provide("made", func(s string) string { return s + "!" }), nil
+			})
+			err := nject.Sequence("p", func() string { return "a" }, empty, func() bool { return true }, last).Bind(&f, nil)
+			if err != nil {
+				return err
+			}
+			if got := f(); got != "a!" {
+				return fmt.Errorf("got %q", got)
+			}
+			return nil
+		}},
+		{"two generated providers: the earlier one replaced by two providers, the later one last", func() error {
+			var f func() string
+			two := nject.GenerateFromInjectionChain("two", func(before, after nject.Collection) (nject.Provider, error) {
+				return nject.Sequence("two", func() int { return 1 }, func(i int) bool { return i == 1 }), nil
+			})
+			last := nject.GenerateFromInjectionChain("last", func(before, after nject.Collection) (nject.Provider, error) {
+				return nject.Provide("made", func(s string, b bool) string { return fmt.Sprint(s, b) }), nil
+			})
+			err := nject.Sequence("p", func() string { return "a" }, two, last).Bind(&f, nil)
+			if err != nil {
+				return err
+			}
+			if got := f(); got != "atrue" {
+				return fmt.Errorf("got %q", got)
+			}
+			return nil
+		}},
+		{"a Bind error described twice (DetailedError), then a usable chain is bound", func() error {
+			var bad func() T0
+			err := nject.Sequence("p", func(T1) T0 { return T0{} }).Bind(&bad, nil)
+			if err == nil {
+				return fmt.Errorf("the unusable chain was accepted")
+			}
+			_ = nject.DetailedError(err)
+			_ = nject.DetailedError(err)
+			var good func() T0
+			if err := nject.Sequence("p", func() T0 { return T0{Tag: 3} }).Bind(&good, nil); err != nil {
+				return err
+			}
+			if good().Tag != 3 {
+				return fmt.Errorf("wrong value")
+			}
 			return nil
 		}},
 		{"two TerminalErrors in one provider (bind, then invoke)", func() error {
@@ -323,11 +408,21 @@ func memoShapeProbes() []probe {
 	return out
 }
 
-func runProbes() []string {
+// runProbes runs the probes from number `start` on.  After a probe that hangs the process is not to be trusted any more (the
+// goroutine is still there, and whatever it holds -- a leaked lock, say -- would make every later probe hang as well): the
+// verdicts so far are returned with a last line "resume <k>", and the driver starts a fresh process for the rest.
+func runProbes(start int) []string {
 	var out []string
-	for _, p := range append(apiProbes(), memoShapeProbes()...) {
+	for k, p := range append(apiProbes(), memoShapeProbes()...) {
+		if k < start {
+			continue
+		}
 		var err error
 		s := guarded(10*time.Second, func() { err = p.f() })
+		if strings.HasPrefix(s, "hang") {
+			out = append(out, fmt.Sprintf("probe %q %s", p.name, s), fmt.Sprintf("resume %d", k+1))
+			return out
+		}
 		switch {
 		case s != "":
 			out = append(out, fmt.Sprintf("probe %q %s", p.name, s))
